@@ -121,6 +121,32 @@ theorem iput_serves_oldest (h : List Ev) (a pl : Nat) (det : Bool) (m : Mess) (h
       rw [pairs_cons, pairOf_finish_put g a pl _ det hgev]
       simp
 
+/-!
+### The payload is written into the getter's buffer once — FALSE on the current code
+
+Full-strength statement (what "every get returns the payload of exactly one put" needs at the level of the buffer):
+
+    theorem mq_written_once (h : List Ev) : ∀ m ∈ (run h).fin, m.writes ≤ 1
+
+It does not hold: `MessImpl::finish()` runs again on every later `wait()/test()` of either side and, having no
+`copied_` flag, executes `*(void**)dst_buff_ = payload_` again — also after the getter has returned, when
+`dst_buff_` (a local variable of `MessageQueue::get<T>()`) is dead.  Reproduced on the library (the getter's stack is
+overwritten: segmentation fault in a later `sleep_for`; with a heap buffer: the buffer the getter had already
+consumed is filled again).  Classification key: `mess-finish-recopies-payload`.
+-/
+
+/-- counterexample: a get with a buffer is queued, a put is matched with it (first write), then the putter waits on
+its already-DONE put: `finish()` writes the buffer a second time. -/
+theorem mq_written_once_counterexample :
+    ∃ h : List Ev, ∃ m ∈ (run h).fin, m.state = .done ∧ m.writes = 2 :=
+  ⟨[.iget 1 true, .iput 2 70 false, .refinish 0], by decide⟩
+
+/-- what does hold: without a later `wait()/test()` on an object that is already finished (no `refinish` call in
+the history) the buffer is written at most once. -/
+theorem mq_written_once_partial (h : List Ev) (hh : ∀ e ∈ h, ∀ id, e ≠ Ev.refinish id) :
+    ∀ m ∈ (run h).fin, m.writes ≤ 1 :=
+  (wok_foldl h hh {} ⟨by simp, by simp⟩).2
+
 /-! ### non-vacuity: concrete histories on which the statements above say something -/
 
 /-- two puts then two gets: delivered in order, payloads 70 then 71 -/
@@ -132,6 +158,9 @@ example : pairs (run [.iput 1 70 false, .iput 1 71 false, .iget 2 true, .iget 3 
 example : pairs (run [.iget 2 true, .iget 3 true, .cancel 0, .iput 1 70 true, .iput 1 71 false]) = [(3, 1)] ∧
     ((run [.iget 2 true, .iget 3 true, .cancel 0, .iput 1 70 true, .iput 1 71 false]).queue.map (·.id)) = [4] := by
   decide
+
+/-- `mq_written_once_partial` is not vacuous: a history without refinish in which the buffer is written (once) -/
+example : ((run [.iget 1 true, .iput 2 70 false]).fin.map (·.writes)) = [1] := by decide
 
 /-- hypotheses of `iget_takes_oldest` are satisfiable -/
 example : ∃ m ∈ (run [.iput 1 70 false, .iput 4 71 true]).queue, m.type = .put := by decide
